@@ -462,3 +462,17 @@ Proof.
   apply (pos_table_roundtrip Hok Hd st b rest Hall); [|exact Hb].
   unfold pos_limit_ok in HL. apply andb_true_iff in HL as [_ H65]. lia.
 Qed.
+
+(* the index forms of the parsed rows are texts of scalar values (their UTF-8 bytes are the keys of the index) *)
+Lemma parse_records_surfaces_scalar : pos_limit_ok = true -> word_mask_ok = true -> forall rows st st' rrows,
+  pos_inv st -> Forall fields_scalar rows -> parse_records st rows = ROk (st', rrows) ->
+  Forall (fun r => forallb is_scalar (r_surface r) = true) rrows.
+Proof.
+  intros HL HM. induction rows as [|f t IH]; intros st st' rrows Hinv Hf H; cbn [parse_records] in H.
+  - inversion H; subst. constructor.
+  - inversion Hf as [|? ? Hx Ht]; subst. destruct (parse_record st f) as [[st1 r]|] eqn:E; [|discriminate]. cbn [bind fst snd] in H.
+    destruct (parse_records st1 t) as [[st2 rs]|] eqn:Et; [|discriminate]. cbn [bind fst snd] in H. inversion H; subst.
+    destruct (parse_record_spec HL _ _ _ _ Hinv E) as (h & tl & pid & Hh & _ & Hs & _ & _ & _ & _ & _ & _ & Hi1).
+    constructor; [|apply (IH _ _ _ Hi1 Ht Et)].
+    rewrite Hs. destruct (decode_head_ok HM f h Hx Hh) as (S1 & _). exact S1.
+Qed.
